@@ -468,6 +468,8 @@ def _function_incompatibilities(old_function: Function, new_function: Function) 
                     new_param.kind is ParameterKind.var_positional
                     and old_param.kind is not ParameterKind.positional_only
                     and not has_variadic_kwargs,
+                    # Variadic to non-variadic: extra arguments are not collected anymore.
+                    old_param.kind in _VARIADIC and new_param.kind not in _VARIADIC,
                 ),
             )
             if incompatible_kind:
